@@ -20,10 +20,28 @@ def keyarg(ks, spelling):
 
 
 def observe(x, y, lk, rk, op, mode, spelling, how):
+    how0 = how
     """how: 'method' (x.join / x.xor) or 'operator' (x * y, x / y; only with implicit keys, default mode)"""
     ids = IdMap()
     dx, dy = table_from(x, ids), table_from(y, ids)
     implicit = spelling == 'none'
+    if how == 'rejoin':
+        # a history on the same objects: join / xor once, edit one key cell of x in place through the column list
+        # the table hands out, then call again; the second call is the one recorded (against the edited x)
+        how = 'method'
+        kc = [k[1] for k in lk if k[0] == 'col']
+        if kc and x['rows'] and y['rows']:
+            try:
+                (dx.join(dy, **({} if implicit else {'lcols': keyarg(lk, spelling), 'rcols': keyarg(rk, spelling)})) if op == 'join'
+                 else dx.xor(dy, **({} if implicit else {'lcols': keyarg(lk, spelling), 'rcols': keyarg(rk, spelling)})))
+            except Exception:
+                pass
+            i = len(x['rows']) // 2
+            rkc = [k[1] for k in rk if k[0] == 'col']
+            newv = y['rows'][-1][rkc[0]] if rkc else x['rows'][0][kc[0]]
+            x = {'cols': x['cols'], 'rows': [dict(r) for r in x['rows']]}
+            x['rows'][i][kc[0]] = newv
+            dict.__getitem__(dx, kc[0])[i] = untag(newv, ids)
     if how == 'operator':
         f = (lambda: dx * dy) if op == 'join' else (lambda: dx / dy)
     else:
@@ -51,7 +69,7 @@ def observe(x, y, lk, rk, op, mode, spelling, how):
         out = {'kind': 'exc', 'cls': type(val).__name__}
     else:
         out = {'kind': 'timeout'}
-    return {'op': op, 'x': x, 'y': y, 'lk': lk, 'rk': rk, 'mode': mode, 'implicit': implicit, 'spelling': spelling, 'how': how,
+    return {'op': op, 'x': x, 'y': y, 'lk': lk, 'rk': rk, 'mode': mode, 'implicit': implicit, 'spelling': spelling, 'how': how0,
             'out': out, 'x_after': proj_table(dx, ids), 'y_after': proj_table(dy, ids)}
 
 
@@ -106,6 +124,7 @@ PLANS = [  # (variant, op, mode, spelling, how)
     ('computed_left', 'xor', 'l', 'str', 'method'), ('computed_both', 'join', 'none', 'str', 'method'),
     ('computed_pair', 'join', 'none', 'str', 'method'), ('computed_pair', 'xor', 'l', 'list', 'method'),
     ('cross', 'join', 'none', 'list', 'method'), ('cross', 'join', 'none', 'none', 'operator'), ('cross', 'xor', 'l', 'list', 'method'),
+    ('plain', 'join', 'none', 'str', 'rejoin'), ('plain', 'xor', 'l', 'list', 'rejoin'), ('shared', 'join', 'r', 'list', 'rejoin'),
     ('bare', 'join', 'none', 'none', 'operator'), ('bare', 'xor', 'l', 'none', 'operator'), ('bare', 'join', 'none', 'same', 'method'),
 ]
 
